@@ -110,7 +110,7 @@ func (rp *replay) runTx(t string, prog []Access, gated bool, cfail bool) {
 			rp.dbw.Lock()
 			holdsDB = true
 		}
-		rp.tw.Emit("WithStart", M{"t": t, "i": i + 1, "name": a.Name, "ro": b2i(a.RO)})
+		rp.tw.Emit("WithStart", M{"t": t, "g": t, "i": i + 1, "name": a.Name, "ro": b2i(a.RO)})
 		err := tx.With(a.Name, a.RO, func() (cache.Cachable, error) {
 			if a.CtorFail {
 				return nil, errors.New("constructor failed")
@@ -123,7 +123,7 @@ func (rp *replay) runTx(t string, prog []Access, gated bool, cfail bool) {
 			return o, nil
 		}, func(c cache.Cachable) error {
 			o := c.(*obj)
-			rp.tw.Emit("CbEnter", M{"t": t, "name": a.Name, "ro": b2i(a.RO), "obj": o.id})
+			rp.tw.Emit("CbEnter", M{"t": t, "g": t, "name": a.Name, "ro": b2i(a.RO), "obj": o.id})
 			if gated {
 				rp.sched.Yield(t, "cbRun")
 			}
@@ -132,7 +132,7 @@ func (rp *replay) runTx(t string, prog []Access, gated bool, cfail bool) {
 			} else if o.size.Load() == 0 {
 				o.size.Store(1)
 			}
-			rp.tw.Emit("CbExit", M{"t": t, "obj": o.id, "err": b2i(a.CbFail)})
+			rp.tw.Emit("CbExit", M{"t": t, "g": t, "obj": o.id, "err": b2i(a.CbFail)})
 			if a.CbFail {
 				return errors.New("callback failed")
 			}
